@@ -5,6 +5,7 @@ package main
 import (
 	"fmt"
 	"net"
+	"reflect"
 	"sort"
 	"strings"
 
@@ -300,6 +301,36 @@ func (cb *cbox) quiescentChecks(prev *boxQuiet, epochEvents []string) {
 				cb.c.Violation("memory-holds-deleted-service", fmt.Sprintf("at quiescence the allocator still records %v for %s which does not exist", snap.Allocated[k].IPs, k), nil)
 			}
 		}
+	}
+	if cb.mon.c11 {
+		// the usage reported to the user: IPAddressPool.status (written by the real PoolStatusReconciler)
+		for _, pk := range vfSortedKeys(cb.k.Store.Pools) {
+			p := cb.k.Store.Pools[pk]
+			m := model[p.Name]
+			if m == nil {
+				continue // not part of the configuration the controller runs on (rejected resource set)
+			}
+			ctr, ok := snap.Counters[p.Name]
+			if !ok {
+				continue
+			}
+			same := false
+			for i := range cb.cur.Pools {
+				if cb.cur.Pools[i].Name == p.Name && reflect.DeepEqual(cb.cur.Pools[i].Spec, p.Spec) {
+					same = true
+				}
+			}
+			if !same {
+				continue // the stored pool is a newer version the controller has not accepted (yet)
+			}
+			cb.c.Eval()
+			cb.c.Count("pool-status-resources-checked")
+			got := [4]int64{p.Status.AssignedIPv4, p.Status.AssignedIPv6, p.Status.AvailableIPv4, p.Status.AvailableIPv6}
+			if got != ctr {
+				cb.c.Violation("pool-status-resource-stale", fmt.Sprintf("at quiescence IPAddressPool %s reports status %v but the allocator's counters are %v (assigned v4, v6, available v4, v6)", p.Name, got, ctr), nil)
+			}
+		}
+		vfCheckCounters(cb.c, snap, model)
 	}
 	if cb.mon.c02 {
 		for _, k := range keys {
